@@ -374,8 +374,28 @@ func c04Replay(rec *vu.Recorder, script []c04Op) {
 		if o.Auto {
 			continue // produced by the framework simulation, re-created by rollback()
 		}
-		if o.Op == "unreserve" || o.Op == "postBind" {
+		// a step the (simulated) scheduler / API server cannot take in the current state of the real run is skipped:
+		// TLC-generated schedules follow the MODEL's permit verdicts, the real code decides the real ones
+		_, known := w.objs[o.Pod]
+		switch o.Op {
+		case "permit", "fail":
+			if !known || w.assumed[o.Pod] || w.bound[o.Pod] {
+				continue
+			}
+		case "unreserve":
+			if !w.assumed[o.Pod] && !w.bound[o.Pod] && known {
+				continue
+			}
 			w.assumed[o.Pod] = true
+		case "postBind":
+			if w.fw[o.Pod] != nil || (!w.assumed[o.Pod] && known) {
+				continue
+			}
+			w.assumed[o.Pod] = true
+		case "podDelete":
+			if !known {
+				continue
+			}
 		}
 		w.rollback(w.exec(o))
 	}
